@@ -26,6 +26,21 @@ _LARGE_GRADIENT = 1e16
 _RECURSION_THRESHOLD = 400
 
 
+def _ieee_div(a: Any, b: Any) -> Any:
+    """a / b with IEEE semantics.
+
+    Constants and the vector reductions evaluate to Python floats, for which a
+    zero denominator raises ZeroDivisionError instead of giving inf / nan as
+    NumPy scalars do.  Derivative callables sanitise inf / nan afterwards; they
+    must not raise at a singular point.
+    """
+    try:
+        return a / b
+    except ZeroDivisionError:
+        with np.errstate(divide="ignore", invalid="ignore"):
+            return np.float64(a) / np.float64(b)
+
+
 def _sanitize_derivatives(arr: np.ndarray) -> np.ndarray:
     """Replace NaN and Inf values in derivative arrays.
 
@@ -300,7 +315,7 @@ def _build_evaluator(
         elif op == "*":
             return lambda x, lf=left_fn, rf=right_fn: lf(x) * rf(x)
         elif op == "/":
-            return lambda x, lf=left_fn, rf=right_fn: lf(x) / rf(x)
+            return lambda x, lf=left_fn, rf=right_fn: _ieee_div(lf(x), rf(x))
         elif op == "**":
             return lambda x, lf=left_fn, rf=right_fn: np.float_power(lf(x), rf(x))
         else:
@@ -486,7 +501,7 @@ def _build_evaluator_iterative(
                     )
                 elif op == "/":
                     result_stack.append(
-                        lambda x, lf=left_fn, rf=right_fn: lf(x) / rf(x)
+                        lambda x, lf=left_fn, rf=right_fn: _ieee_div(lf(x), rf(x))
                     )
                 elif op == "**":
                     result_stack.append(
